@@ -98,11 +98,12 @@ def sp_scale(apis):
         if apis:
             fams = [('nest', 100000 if big else 20000), ('siblings', 100000), ('nonascii-lines', 100000 if big else 20000),
                     ('attrs', 20000 if big else 2000), ('nsdecls', 20000 if big else 2000), ('text', 100000),
-                    ('longname-2', 32778), ('longname-3', 21855), ('longname-4', 16394), ('longeq', 300)]
+                    ('longname-2', 32778), ('longname-3', 21855), ('longname-4', 16394), ('longeq', 300),
+                    ('longname-edge', 65300), ('tp-huge', 1)]
         dist = collections.Counter()
         samples = []
         for fam, n in fams:
-            st, lines, err = scale_run(exe, fam, n, 600 if big else 240)
+            st, lines, err = scale_run(exe, fam, n, 30 if fam == 'tp-huge' else (600 if big else 240))
             dist['scale:' + st] += 1
             desc = f'scale family {fam} n={n}'
             if st != 'ok':
@@ -248,6 +249,10 @@ def sp_ord(pid, cfg, tier, seed, exe, chk, violations, broken, notes):
                                'what': 'equality / ordering / hashing matrix differs from the model (nodes given as docrank:id)',
                                'case': {'generator': f'roxh ord (seed {seed}) block {cid}', 'nodes': a[0] if a else ''},
                                'impl': a[k:k + 1], 'model': b[k:k + 1]})
+        for l in il:
+            if l.startswith('ORDX FAIL'):
+                violations.append({'kind': 'impl-oracle', 'concrete': True, 'what': 'node identity through iterators: ' + l[10:],
+                                   'case': {'generator': f'roxh ord (seed {seed}) block {cid}'}})
         # grouping: in the sorted sequence the nodes of one document are contiguous
         nodes = sorted_ = None
         for l in il:
@@ -397,7 +402,7 @@ SPECIALS = {
                           also=sp_gen_tie([['entity-boundary', 1], ['exotic', 10]], [['entity-boundary', 1], ['exotic', 100]])),
     'entities': sp_gen_tie([['entities', 8], ['entity-boundary', 1]], [['entities', 32], ['entity-boundary', 1]]),
     'shift': sp_verdict('shift', [M], [MT, ['mut', 5000, 400]], 'impl-oracle',
-                        also=sp_verdict('shapes', [M, ['fixtures', 4000]], [MT, ['fixtures', 20000]], 'impl-oracle')),
+                        also=sp_verdict('shapes', [M, ['fixtures', 4000], ['longattr', 1]], [MT, ['fixtures', 20000], ['longattr', 1]], 'impl-oracle')),
     'errshift': sp_verdict('shift', [['model', 1500, 40], ['mut', 1500, 300]], [['model', 20000, 40], ['mut', 20000, 400]], 'impl-oracle',
                            also=sp_gen_tie([['exotic', 10]], [['exotic', 100]])),
     'limits': sp_verdict('limits', [M, ['mut', 500, 300], ['entities', 6]], [MT, ['mut', 10000, 400], ['entities', 16]], 'impl-oracle'),
